@@ -139,7 +139,7 @@ def run(pid, tier):
         nd = chk_dsl.doc_validate(chk, binary, sc, [{"id": k, "text": v, "src": ["none", 0, 0]} for k, v in list(texts.items()) + list(aux.items()) if len(v) < 30000 and k not in stuck and not stuck],
                                   "token-mutated documents and byte-mutated fixtures")
         # ... and their token streams against the lexer automaton (spec/Lexer.tla): the lexer on texts that are NOT sentences
-        chk_dsl.lexer_validate(chk, binary, sc, [{"id": k, "text": v} for k, v in (list(texts.items()) + list(aux.items()))[::5 if tier == "quick" else 1] if len(v) < 20000 and k not in stuck and not stuck],
+        chk_dsl.lexer_validate(chk, binary, sc, [{"id": k, "text": v} for k, v in (list(texts.items()) + list(aux.items()))[::5 if tier == "quick" else 2][:15000] if len(v) < 20000 and k not in stuck and not stuck],
                                "token-mutated documents and byte-mutated fixtures")
 
         # ---- e. fga.mod: every path string of the ModFile.tla universe (all strings <= 4 over the path alphabet, each also with .fga
